@@ -222,15 +222,30 @@ func VerifWire_RoundTrip() {
 		err := mh.ToNet("p", m, &buf)
 		verifrt.Assert(err == nil, "C11 ToNet failed on a well-formed message")
 		verifrt.Eventf("stream bytes=%d", buf.Len())
-		rd := msgio.NewVarintReaderSize(&buf, 4<<20)
-		if second {
-			f, err := mh.FromMsgReader("p", rd)
-			verifrt.Assert(err == nil && len(f.Requests()) == 1 && f.Requests()[0].ID() == wrid(90), "C11 first message of a stream does not decode back")
+		if verifrt.Choose("decode-through-FromNet", 2) == 1 {
+			// the other exported entry point: FromNet, called once per message on
+			// a plain io.Reader (a socket or pipe: no ReadByte)
+			var stream io.Reader = struct{ io.Reader }{&buf}
+			if second {
+				f, err := mh.FromNet("p", stream)
+				verifrt.Assert(err == nil && len(f.Requests()) == 1 && f.Requests()[0].ID() == wrid(90), "C11 first message of a stream does not decode back")
+			}
+			m2, err = mh.FromNet("p", stream)
+			verifrt.Assert(err == nil, "C11 FromNet failed on the encoding of a well-formed message")
+			_, err = mh.FromNet("p", stream)
+			verifrt.Assert(err == io.EOF, "C11 stream does not end after its last message")
+			verifrt.Cover("from-net")
+		} else {
+			rd := msgio.NewVarintReaderSize(&buf, 4<<20)
+			if second {
+				f, err := mh.FromMsgReader("p", rd)
+				verifrt.Assert(err == nil && len(f.Requests()) == 1 && f.Requests()[0].ID() == wrid(90), "C11 first message of a stream does not decode back")
+			}
+			m2, err = mh.FromMsgReader("p", rd)
+			verifrt.Assert(err == nil, "C11 FromMsgReader failed on the encoding of a well-formed message")
+			_, err = mh.FromMsgReader("p", rd)
+			verifrt.Assert(err == io.EOF, "C11 stream does not end after its last message")
 		}
-		m2, err = mh.FromMsgReader("p", rd)
-		verifrt.Assert(err == nil, "C11 FromMsgReader failed on the encoding of a well-formed message")
-		_, err = mh.FromMsgReader("p", rd)
-		verifrt.Assert(err == io.EOF, "C11 stream does not end after its last message")
 		verifrt.Cover("bytes")
 	} else {
 		ib, err := mh.toIPLD(m)
